@@ -464,6 +464,24 @@ func ruleProbes(r *Run, p string, k *vecKind) {
 					hit = true
 				}
 			}
+			// skipping the scan of a list that was just found empty changes nothing
+			if !hit {
+				for _, d := range pth.Decisions {
+					bo, ok := d.Cond.(*ssa.BinOp)
+					if !ok {
+						continue
+					}
+					l, rr := c.S(bo.X), c.S(bo.Y)
+					isLen := func(s string) bool { return strings.HasPrefix(s, "len(P0.") && strings.Contains(s, ".lists[") }
+					switch {
+					case bo.Op == token.EQL && ((isLen(l) && rr == "c(0)") || (isLen(rr) && l == "c(0)")) && d.Taken,
+						bo.Op == token.NEQ && ((isLen(l) && rr == "c(0)") || (isLen(rr) && l == "c(0)")) && !d.Taken,
+						bo.Op == token.GTR && isLen(l) && rr == "c(0)" && !d.Taken,
+						bo.Op == token.LSS && l == "c(0)" && isLen(rr) && !d.Taken:
+						hit = true
+					}
+				}
+			}
 			if !hit {
 				skips++
 			}
@@ -746,6 +764,16 @@ func ruleIVFAssign(r *Run, p string, k *vecKind) {
 		okErr := false
 		if ret, ok := untrained.Instrs[len(untrained.Instrs)-1].(*ssa.Return); ok && classifyErr(ret) == ErrNonNil {
 			okErr = true
+		}
+		if !okErr {
+			// resolved per path (the error may be assigned first and returned after a join), and no use on the way
+			okErr = onlyFailsFrom(untrained, func(in ssa.Instruction) bool {
+				if u, ok := in.(*ssa.UnOp); ok && u.Op == token.MUL {
+					s := cc.S(u.X)
+					return s == recv+".centroids" || s == recv+".lists" || s == recv+".codebooks"
+				}
+				return false
+			}) == nil
 		}
 		okDom := true
 		allInstrs(f, func(in ssa.Instruction) {
@@ -1078,6 +1106,9 @@ func ruleIVFAssignTrained(r *Run, p string, k *vecKind) {
 		if ret, ok := untrained.Instrs[len(untrained.Instrs)-1].(*ssa.Return); ok && classifyErr(ret) == ErrNonNil {
 			okErr = true
 		}
+		if !okErr {
+			okErr = onlyFailsFrom(untrained, nil) == nil
+		}
 		r.Check(okErr, p+".TRAINED", k.Name+":"+fname, w.InstrPos(test)+" "+fname, "untrained ⇒ error", "the untrained outcome does not return an error")
 	}
 }
@@ -1226,5 +1257,164 @@ func ruleHNSWDefaults(r *Run, rule string) {
 		r.Bad(rule, "hnsw:ctor:defaults", site, truncList(bad, 4))
 	} else {
 		r.Ok(rule, "hnsw:ctor:defaults", site, fmt.Sprintf("%d (sign pattern, path) states: stored M, efConstruction and efSearch are positive in all of them", states))
+	}
+}
+
+// ruleSubspaceKernel: the per-subspace distance that PQ / IVFPQ use — when choosing a codeword (encode) and when filling the
+// query's distance tables — is the squared L2 distance of the two sub-vectors, written as one accumulator over a range of
+// the sub-vector, acc ← acc + (x−y)², or a call to a package function that is exactly that. An unrolled or otherwise
+// restructured kernel is not recognised (undecided): the rule prefers to fail over accepting arithmetic it cannot read.
+func ruleSubspaceKernel(r *Run, rule string) {
+	w := r.W
+	r.Doc(rule, "codeword choice or table entries are not the squared L2 distance of the sub-vectors: ranks by something else than the asymmetric distance")
+	isKernelFn := func(g *ssa.Function) bool {
+		if g == nil || g.Pkg != w.SPkg || len(g.Params) != 2 || g.Signature.Results().Len() != 1 || !isFloat32(g.Signature.Results().At(0).Type()) {
+			return false
+		}
+		accs := accumulators(w, g, map[int]string{0: "x", 1: "y"})
+		if len(accs) != 1 || accs[0].Init != "0" || accs[0].Update != eAdd("acc", eMul(eSub("x", "y"), eSub("x", "y"))) {
+			return false
+		}
+		for _, ret := range returnsOf(g) {
+			if ret.Results[0] != ssa.Value(accs[0].Phi) {
+				return false
+			}
+		}
+		return sameIndexOperands(w, g, accs[0].Phi)
+	}
+	isSqL2 := func(fn *ssa.Function, v ssa.Value) (bool, string) {
+		for {
+			if cv, ok := v.(*ssa.Convert); ok {
+				v = cv.X
+				continue
+			}
+			break
+		}
+		if call, ok := v.(*ssa.Call); ok {
+			if g := staticCallee(call.Common()); g != nil && isKernelFn(g) {
+				r.Analysed(w.Name(g))
+				return true, "call of " + w.Name(g) + " (Σ (x−y)², checked)"
+			}
+			return false, "call of " + shortCallee(call.Common())
+		}
+		ph, ok := v.(*ssa.Phi)
+		if !ok {
+			return false, NewCanon(w).S(v)
+		}
+		// loop accumulator: init 0, update acc + (a−b)² with a, b element loads
+		var back, init ssa.Value
+		for i, e := range ph.Edges {
+			if ph.Block().Dominates(ph.Block().Preds[i]) {
+				back = e
+			} else {
+				init = e
+			}
+		}
+		if back == nil || init == nil {
+			return false, "not a loop accumulator"
+		}
+		ex := NewExpr(w)
+		cn := NewCanon(w)
+		ex.Leaf = func(x ssa.Value) (string, bool) {
+			if x == ssa.Value(ph) {
+				return "acc", true
+			}
+			if u, ok := x.(*ssa.UnOp); ok && u.Op == token.MUL {
+				if ia, ok := u.X.(*ssa.IndexAddr); ok {
+					return "e:" + cn.S(ia.X) + "@" + cn.S(ia.Index), true
+				}
+			}
+			return "", false
+		}
+		upd, in0 := ex.S(back), ex.S(init)
+		if in0 != "0" {
+			return false, "accumulator starts at " + in0
+		}
+		// add(acc,mul(sub(A,B),sub(A,B))) with A, B elements at the same index of two different slices
+		const pre = "add(acc,mul(sub("
+		if !strings.HasPrefix(upd, pre) {
+			return false, upd
+		}
+		rest := strings.TrimSuffix(strings.TrimPrefix(upd, "add(acc,mul("), "))")
+		parts := strings.SplitN(rest, "),sub(", 2)
+		if len(parts) != 2 || strings.TrimPrefix(parts[0], "sub(") != strings.TrimSuffix(parts[1], ")") {
+			return false, upd
+		}
+		ab := strings.SplitN(strings.TrimPrefix(parts[0], "sub("), ",e:", 2)
+		if len(ab) != 2 {
+			return false, upd
+		}
+		a, b := strings.TrimPrefix(ab[0], "e:"), ab[1]
+		ai, bi := strings.LastIndex(a, "@"), strings.LastIndex(b, "@")
+		if ai < 0 || bi < 0 || a[ai:] != b[bi:] || a[:ai] == b[:bi] {
+			return false, upd + " (operands are not elements at one index of two slices)"
+		}
+		return true, "Σ (a[i]−b[i])²"
+	}
+	n := 0
+	check := func(fn *ssa.Function, v ssa.Value, at ssa.Instruction, what string) {
+		n++
+		ok, how := isSqL2(fn, v)
+		key := fmt.Sprintf("kernel:%s:%s", what, w.Name(fn))
+		site := w.InstrPos(at) + " " + w.Name(fn)
+		if ok {
+			r.Ok(rule, key, site, what+" distance is the squared L2 of the sub-vectors: "+how)
+		} else {
+			r.Und(rule, key, site, what+" distance is not recognised as the squared L2 of the two sub-vectors: "+short(how, 140))
+		}
+	}
+	// encode: the value compared with the running minimum
+	for _, fn := range annEncodeFns(w) {
+		for _, M := range argminHeaders(fn) {
+			for _, ref := range *M.Referrers() {
+				bo, ok := ref.(*ssa.BinOp)
+				if !ok {
+					continue
+				}
+				var d ssa.Value
+				switch {
+				case bo.Y == ssa.Value(M) && (bo.Op == token.LSS || bo.Op == token.LEQ):
+					d = bo.X
+				case bo.X == ssa.Value(M) && (bo.Op == token.GTR || bo.Op == token.GEQ):
+					d = bo.Y
+				}
+				if d != nil {
+					check(fn, d, bo, "encode")
+				}
+			}
+		}
+	}
+	// tables: float32 stores into a two-level indexed local table in the per-query routines
+	for _, kn := range []string{"pq", "ivfpq"} {
+		k, err := kindByName(w, kn)
+		if err != nil {
+			continue
+		}
+		for _, fn := range sameRecvCallees(w, k.Single, 2) {
+			allInstrs(fn, func(in ssa.Instruction) {
+				st, ok := in.(*ssa.Store)
+				if !ok || !isFloat32(st.Val.Type()) {
+					return
+				}
+				ia, ok := st.Addr.(*ssa.IndexAddr)
+				if !ok {
+					return
+				}
+				ld, ok := ia.X.(*ssa.UnOp)
+				if !ok || ld.Op != token.MUL {
+					return
+				}
+				if _, ok := ld.X.(*ssa.IndexAddr); !ok {
+					return
+				}
+				if types.TypeString(ld.X.(*ssa.IndexAddr).X.Type(), nil) != "[][]float32" {
+					return
+				}
+				check(fn, st.Val, in, "table")
+			})
+		}
+	}
+	if n < 4 {
+		r.add(rule, "kernel:floor", "-", fmt.Sprintf("%d sub-space distance sites found, floor is 4 (encode and table of PQ and IVFPQ)", n), Floor)
 	}
 }
